@@ -120,6 +120,8 @@ def run(r: core.Run, mode, prop_module, what):
 
     tie = None
     spec_bad = []
+    collisions = []
+    ops = []
     try:
         stats = core.run_bwh(["store", "-mode", mode, "-n", str(n), "-len", str(length), "-ops", base + ".ops", "-impl", base + ".impl"],
                              extra_env={"VERIF_SEED": str(r.seed)})
@@ -141,6 +143,10 @@ def run(r: core.Run, mode, prop_module, what):
             a = impl[i] if i < len(impl) else "<missing>"
             if a not in TRIVIAL:
                 nontriv.add((l, a))
+            if l.startswith("K ") and a == "collide" and i < len(model) and model[i] == "distinct":
+                # two different values under one UUID, and not by one of the pre-image classes the model proves
+                collisions.append(i)
+                continue
             if (model[i] if i < len(model) else "<missing>") != a:
                 model_bad.append(i)
             if in_spec_domain(l) and (spec[i] if i < len(spec) else "<missing>") != a:
@@ -160,6 +166,13 @@ def run(r: core.Run, mode, prop_module, what):
         tie = e
         ops = []
 
+    if tie is None and ops and collisions:
+        for i in collisions[:3]:
+            r.violation({"protocol": "store", "mode": mode, "pair": ops[i],
+                         "what": "two different triples (K <s p o> <s p o>) have one UUID, outside the collision classes of the pre-image model: "
+                                 "a graph holds them as one triple",
+                         "how_to_replay": f"./check {r.prop} (the pair is met by the universe generator of seed {r.seed})"})
+        return
     if spec_bad:
         # concrete failing input: minimise the first few (distinct histories)
         done = 0
